@@ -3,13 +3,14 @@ from __future__ import annotations
 
 import asyncio
 import itertools
+import struct
 from unittest import mock
 
 from cryptography.hazmat.primitives.asymmetric import ed25519
 from cryptography.hazmat.primitives.ciphers.aead import ChaCha20Poly1305
 
 from harness import refacc
-from harness.common import Ctx, Driver, compare_with_model, hx, load_corpus
+from harness.common import Ctx, Driver, compare_with_model, hx, load_corpus, unhx
 
 import aiohomekit.exceptions as E
 import aiohomekit.protocol as P
@@ -21,10 +22,19 @@ ID = "C04"
 RULE = ("full finite grid: steps {setup M2,M4,M6, verify M2,M4, add/remove pairing on IP and BLE} x error codes {absent,1..7,0,8,255,two-byte,empty} x states {absent,1..6} x "
         "EVERY subset of the step's other protocol fields (genuine values, so that clean replies can succeed) x {decoded with the step's expectation list (IP/CoAP), unfiltered (BLE)} x "
         "item orders {state first, error first, state last}; non-trivial = distinct cell. The reply is TLV-encoded by an independent writer and decoded by the real TLV.decode_bytes "
-        "with the expectation list the real generator yields.")
+        "with the expectation list the real generator yields. Transport level (streams ble / coap / ip): the transports' own drivers of the state machines and the public operations that run them - entry points "
+        "{BlePairing._async_pair_verify first and later (resume requested, honoured or declined) session, BleDiscovery.async_start_pairing / finish_pairing, BlePairing list/add/remove(own) pairing, "
+        "list_accessories_and_characteristics, async_populate_accessories_state, get/put_characteristics, identify; CoAPHomeKitConnection.do_pair_setup / do_pair_setup_finish / do_pair_verify / connect, "
+        "CoAPDiscovery start/finish pairing, CoAPPairing operations; IpDiscovery start/finish pairing, SecureHomeKitConnection._connect_once, IpPairing operations behind the connector task} x step "
+        "{setup M2/M4/M6, verify M2/M4, add/remove pairing M2 inside a genuine encrypted session} x every error code with the expected / an absent State and every foreign State without / with a code "
+        "x with / without the step's genuine fields x item orders x {one PDU, split PDUs, value fragments, small MTU | HTTP status x Content-Type}, answered by an independent accessory that repeats "
+        "the scripted reply on EVERY attempt the library makes (virtual time); oracle: documented class (a library error for operations that merely run the procedure first), no normal return, "
+        "no session / pairing left behind, no later request sent as if the procedure had succeeded; non-trivial = distinct cell")
 TRUSTED = ["reference accessory (harness/refacc.py: cryptography + RFC 5054 formulas) used to reach M4/M6 and verify-M4 with genuine earlier messages"]
 ASSUMPTIONS = ["'other reply fields' = every subset of the fields the protocol defines for that reply, plus items of types the step does not expect (RetryDelay, Certificate) placed in front of the Error item",
-               "pair-setup steps M4/M6 are reached with a stub SRP client (SRP itself is C02/C03): handle_state_step runs before any SRP value is used"]
+               "pair-setup steps M4/M6 are reached with a stub SRP client (SRP itself is C02/C03): handle_state_step runs before any SRP value is used; a sample of the transport-level pair-setup cells uses the real SRP client against harness/refacc.SrpServer",
+               "transport level: the bleak client (GATT reads / writes) and aiocoap's Context are replaced, the clock is virtual; for an operation that merely runs pair-verify first (BLE public operations, CoAP connect() and CoAPPairing operations) the property is read as: fails with a library error, never returns normally, no session, no further request sent as if verified - the documented class is demanded of the procedure's own driver",
+               "the scripted accessory is persistent: it gives the scripted reply every time the step is reached; an accessory that answers an error once and a genuine reply on a later attempt is not judged (whether a retry may succeed is not the property's business)"]
 EXPLANATION = "Lean theorems C04_* over handle_state_step/error_handler/expectation lists (tables regenerated from source) for arbitrary replies; exhaustive differential grid on the real generators"
 
 CODES = [None, b"\x01", b"\x02", b"\x03", b"\x04", b"\x05", b"\x06", b"\x07", b"\x00", b"\x08", b"\xff", b"\x02\x00", b""]
@@ -202,6 +212,9 @@ def run(ctx: Ctx, driver: Driver):
     resume_grid(ctx, rng)
     ip_http_grid(ctx, rng)
     pairings(ctx, driver, rng)
+    ble_transport_grid(ctx, rng)
+    coap_transport_grid(ctx, rng)
+    ip_transport_grid(ctx, rng)
 
 
 def resume_grid(ctx, rng):
@@ -481,7 +494,950 @@ def _run(loop, coro):
         return "exc " + type(e).__name__
 
 
+
+# =====================================================================================================================
+# transport level: the BLE and CoAP transports' own drivers of the pairing state machines
+# (ble_request / PDU framing / _pairing_char_write / drive_pairing_state_machine / BlePairing / BleDiscovery,
+#  CoAPHomeKitConnection.do_pair_* / CoAPDiscovery / CoAPPairing) against an independent accessory that answers ONE step
+#  of the procedure with the scripted error / foreign step number - persistently, on every attempt the library makes.
+# Only the radio (bleak client) and the CoAP context (aiocoap) are replaced; time is virtual (simnet.VLoop).
+# =====================================================================================================================
+STEP_STATE = {"setupM2": b"\x02", "setupM4": b"\x04", "setupM6": b"\x06", "verifyM2": b"\x02", "verifyM4": b"\x04", "pairingsM2": b"\x02"}
+PIN = "111-22-333"
+ATTEMPT_LIMIT = 40  # no bounded retry policy reaches the same step of one procedure this often within one operation
+REQUEST_LIMIT = 20000  # transport-level reads / writes of one cell (small MTUs and value fragments need a few hundred)
+OP_TIMEOUT = 3600.0  # virtual seconds
+
+
+class _Runaway(BaseException):
+    """the scripted accessory has answered more requests than any bounded retry policy sends for one operation"""
+
+
+def _opt(h):
+    return None if h is None else unhx(h)
+
+
+def _scripted_items(case, genuine):
+    """the scripted reply of one cell: State / Error items of the case, optionally with the step's genuine other fields"""
+    o = orders(_opt(case["state"]), _opt(case["code"]), list(genuine) if case.get("fields") else [])
+    return o[case.get("order", 0) % len(o)]
+
+
+class _Peer:
+    """the accessory's pairing logic, transport independent, written with harness/refacc.py only (nothing from aiohomekit):
+    genuine pair-setup (real or stub SRP), pair-verify incl. session resume, add/remove/list pairings - except at the scripted
+    step, which is answered with the scripted reply every time it is reached"""
+
+    def __init__(self, case, rb):
+        self.case = case
+        self.rb = rb
+        self.ident = refacc.Identity(rb)
+        self.step = case.get("step")
+        self.log = []  # (endpoint, what) for every complete request, in order
+        self.scripted_at = []  # indexes into log of the requests answered with the scripted reply
+        self.requests = 0
+        self.runaway = False
+        self.session = None  # [c2a key, a2c key, c2a counter, a2c counter] once pair-verify completed on this side
+        self.shared = None
+        self.sid = None
+        self.srp = None
+        self.K = None
+        self.va = None
+        self.completed = []  # procedures that completed on the accessory side
+
+    def count(self):
+        self.requests += 1
+        if self.requests > REQUEST_LIMIT:
+            self.runaway = True
+            raise _Runaway()
+
+    def script(self, step, genuine):
+        if self.step != step:
+            return None
+        self.scripted_at.append(len(self.log) - 1)
+        if len(self.scripted_at) > ATTEMPT_LIMIT:
+            self.runaway = True
+            raise _Runaway()
+        return _scripted_items(self.case, genuine)
+
+    def drop_link(self):
+        """the link is gone: the session keys die with it, the resumable secret stays"""
+        self.session = None
+
+    # ---- pair-setup
+    def on_setup(self, req):
+        st = req.get(6)
+        self.log.append(("setup", "M" + hx(st or b"")))
+        stub = self.case.get("srp", "stub") == "stub"
+        if st == b"\x01":
+            if stub:
+                genuine = [(3, b"\x05" * 384), (2, b"\x09" * 16)]
+            else:
+                self.srp = refacc.SrpServer(PIN, self.rb(16), int.from_bytes(self.rb(32), "big"))
+                genuine = [(3, refacc.PAD(self.srp.B)), (2, self.srp.salt)]
+            return self.script("setupM2", genuine) or [(6, b"\x02")] + genuine
+        if st == b"\x03":
+            if stub:
+                proof, self.K = b"\x03" * 64, FakeSrp.K
+            else:
+                self.srp.on_A(req[3])
+                if req.get(4) != self.srp.M1:
+                    return [(6, b"\x04"), (7, b"\x02")]
+                proof, self.K = self.srp.M2, self.srp.K
+            genuine = [(4, proof)]
+            return self.script("setupM4", genuine) or [(6, b"\x04")] + genuine
+        if st == b"\x05" and self.K is not None:
+            ekey = refacc.hk(self.K, b"Pair-Setup-Encrypt-Salt", b"Pair-Setup-Encrypt-Info")
+            ax = refacc.hk(self.K, b"Pair-Setup-Accessory-Sign-Salt", b"Pair-Setup-Accessory-Sign-Info")
+            sig = self.ident.acc_ltsk.sign(ax + self.ident.acc_id + self.ident.acc_ltpk)
+            enc = ChaCha20Poly1305(ekey).encrypt(b"\0\0\0\0PS-Msg06", refacc.tlv([(1, self.ident.acc_id), (3, self.ident.acc_ltpk), (10, sig)]), b"")
+            genuine = [(5, enc)]
+            r = self.script("setupM6", genuine)
+            if r is None:
+                self.completed.append("setup")
+            return r or [(6, b"\x06")] + genuine
+        return [(6, bytes([(st or b"\0")[0] + 1 & 0xFF])), (7, b"\x01")]
+
+    # ---- pair-verify
+    def _install(self, shared, sid):
+        self.shared, self.sid = shared, sid
+        self.session = [refacc.hk(shared, b"Control-Salt", b"Control-Write-Encryption-Key"), refacc.hk(shared, b"Control-Salt", b"Control-Read-Encryption-Key"), 0, 0]
+        self.completed.append("verify")
+
+    def on_verify(self, req):
+        from cryptography.exceptions import InvalidTag
+        st = req.get(6)
+        resume = req.get(0) == b"\x06"
+        self.log.append(("verify", "M" + hx(st or b"") + ("r" if resume else "")))
+        if st == b"\x01":
+            ios_pk = req.get(3, b"")
+            if resume and self.case.get("honour_resume", True) and self.shared is not None and req.get(14) == self.sid:
+                ok = True
+                try:
+                    ChaCha20Poly1305(refacc.hk(self.shared, ios_pk + req[14], b"Pair-Resume-Request-Info")).decrypt(b"\0\0\0\0PR-Msg01", req.get(5, b""), b"")
+                except InvalidTag:
+                    ok = False
+                if ok:
+                    new_sid = self.rb(8)
+                    tag = ChaCha20Poly1305(refacc.hk(self.shared, ios_pk + new_sid, b"Pair-Resume-Response-Info")).encrypt(b"\0\0\0\0PR-Msg02", b"", b"")
+                    genuine = [(0, b"\x06"), (14, new_sid), (5, tag)]
+                    r = self.script("verifyM2", genuine)
+                    if r is not None:
+                        return r
+                    self._install(refacc.hk(self.shared, ios_pk + new_sid, b"Pair-Resume-Shared-Secret-Info"), new_sid)
+                    self.completed.append("resume")
+                    return [(6, b"\x02")] + genuine
+            self.va = refacc.VerifyAccessory(self.ident, self.rb(32))
+            m2 = self.va.m2(ios_pk)
+            return self.script("verifyM2", m2[1:]) or m2
+        if st == b"\x03" and self.va is not None:
+            r = self.script("verifyM4", [])
+            if r is not None:
+                return r
+            if not self.va.check_m3(list(req.items())):
+                return [(6, b"\x04"), (7, b"\x02")]
+            self._install(self.va.shared, refacc.hk(self.va.shared, b"Pair-Verify-ResumeSessionID-Salt", b"Pair-Verify-ResumeSessionID-Info", 8))
+            return [(6, b"\x04")]
+        return [(6, bytes([(st or b"\0")[0] + 1 & 0xFF])), (7, b"\x01")]
+
+    # ---- add / remove / list pairings (inside a verified session)
+    def on_pairings(self, req):
+        method = req.get(0, b"")
+        self.log.append(("pairings", {b"\x03": "add", b"\x04": "remove", b"\x05": "list"}.get(method, "method" + hx(method))))
+        genuine = [(1, self.ident.ios_id.encode()), (3, self.ident.ios_ltpk), (11, b"\x01")] if method == b"\x05" else []
+        r = self.script("pairingsM2", genuine)
+        if r is None:
+            self.completed.append("pairings")
+        return r or [(6, b"\x02")] + genuine
+
+
+def _judge(case, obs):
+    """what the property says about one transport-level cell -> [(signature suffix, text)]"""
+    step = case.get("step")
+    if step is None:
+        return []  # a genuine exchange: the property makes no claim (acceptance is C01/C03); recorded in the distribution only
+    state, code = _opt(case["state"]), _opt(case["code"])
+    exact = case["level"] == "step"
+    want = expected_outcome(STEP_STATE[step], state, code, kind="step" if exact else ("ipadd" if case["level"] == "add" else "pairing"))
+    exact = exact or (want is not None and want != "library-error")
+    if want is None:
+        return []
+    reply = "[" + ", ".join(([f"State={case['state']}"] if state is not None else []) + ([f"Error={case['code']}"] if code is not None else [])) + (", + the step's genuine fields" if case.get("fields") else "") + "]"
+    what = "a foreign step number" if (state is not None and state != STEP_STATE[step]) else "an error code"
+    kind = "wrong-state" if what.startswith("a foreign") else "error-code"
+    where = f"{case['stream']} {case['op']}: accessory answers {step} with {reply} (each of the {obs['scripted']} time(s) the step was reached)"
+    out, bad = obs["out"], []
+    if obs.get("runaway") or out == "timeout":
+        bad.append(("no-failure", f"{where}: the operation neither failed nor ended - {obs['requests']} requests sent, outcome {out}; documented outcome is {want}"))
+    elif obs["scripted"] == 0:
+        return []  # the step was never reached (the operation ended earlier): nothing to judge
+    elif out.startswith("exc"):
+        bad.append((out.split()[1], f"{where}: raised non-library {out.split()[1]}; documented outcome is {want}"))
+    elif out.startswith("ok"):
+        bad.append(("completed/" + kind, f"{where}: the call returned normally ({out[3:][:60]}) - no exception although the accessory's answer was {what}; documented outcome is {want}"))
+    elif exact and out != want:
+        bad.append((kind, f"{where}: -> {out}, documented outcome is {want}"))
+    if obs.get("keys"):
+        bad.append(("keys-installed", f"{where}: session keys / pairing are in place afterwards ({obs['keys']}), outcome {out}"))
+    if obs.get("after"):
+        bad.append(("carried-on", f"{where}: afterwards the controller went on to send {obs['after'][:4]} as if the procedure had succeeded (outcome {out})"))
+    return bad
+
+
+def _after(peer, own):
+    """requests that arrived after a scripted reply and do not belong to the scripted procedure itself (a fresh attempt at the
+    procedure is allowed: whether the library retries is not the property's business)"""
+    if not peer.scripted_at:
+        return []
+    return [f"{e}:{w}" for e, w in peer.log[peer.scripted_at[0] + 1:] if e not in own]
+
+
+# --------------------------------------------------------------------------------------------------------------- BLE
+class _Gatt:
+    def __init__(self, name, iid):
+        self.name, self.iid, self.handle, self.uuid = name, iid, iid, name
+        self.properties = ["read", "write"]
+
+
+class _BleAcc(_Peer):
+    """HAP-BLE framing around _Peer: request PDU reassembly, response PDUs (optionally split over several GATT reads),
+    pairing-characteristic value fragments (FragmentData / FragmentLast), session encryption of everything but pair-setup/verify"""
+
+    def __init__(self, case, rb, names):
+        super().__init__(case, rb)
+        self.names = names  # characteristic type -> endpoint name
+        self.partial, self.pending, self.vq = {}, {}, {}
+
+    def gatt(self, char_type, iid):
+        name = self.names.get(str(char_type).upper(), ("other", iid or 99))
+        return _Gatt(name[0], name[1] if iid is None else iid)
+
+    @staticmethod
+    def nonce(c):
+        return struct.pack("<LQ", 0, c)
+
+    def gatt_write(self, h, data):
+        from cryptography.exceptions import InvalidTag
+        self.count()
+        secured = self.session is not None and h.name not in ("setup", "verify")
+        if secured:
+            try:
+                data = ChaCha20Poly1305(self.session[0]).decrypt(self.nonce(self.session[2]), data, b"")
+            except InvalidTag:
+                self.log.append((h.name, "not-encrypted-for-this-session"))
+                self.pending[h.iid] = [struct.pack("<BBB", 2, data[2] if len(data) > 2 else 0, 3)]
+                return
+            self.session[2] += 1
+        if data and data[0] & 0x80:
+            buf = self.partial.get(h.iid)
+            if buf is None:
+                return
+            buf["body"] += data[2:]
+        else:
+            _c, op, tid, iid = struct.unpack("<BBBH", data[:5])
+            buf = self.partial[h.iid] = {"op": op, "tid": tid, "len": struct.unpack("<H", data[5:7])[0] if len(data) >= 7 else 0, "body": data[7:]}
+        if len(buf["body"]) < buf["len"]:
+            return
+        del self.partial[h.iid]
+        status, body = self.on_request(h, buf["op"], buf["body"], secured)
+        split = self.case.get("pdu_split") or 0
+        if not body:
+            frags = [struct.pack("<BBB", 2, buf["tid"], status)]
+        else:
+            first = body[:split] if split else body
+            frags, rest = [struct.pack("<BBBH", 2, buf["tid"], status, len(body)) + first], body[len(first):]
+            while rest:
+                frags.append(bytes([0x82, buf["tid"]]) + rest[:split])
+                rest = rest[split:]
+        if secured:
+            for i, f in enumerate(frags):
+                frags[i] = ChaCha20Poly1305(self.session[1]).encrypt(self.nonce(self.session[3]), f, b"")
+                self.session[3] += 1
+        self.pending[h.iid] = frags
+
+    def gatt_read(self, h):
+        self.count()
+        q = self.pending.get(h.iid)
+        if not q:
+            return struct.pack("<BBB", 2, 0, 6)
+        return q.pop(0)
+
+    def on_request(self, h, op, body, secured):
+        if h.name in ("setup", "verify", "pairings"):
+            if h.name == "pairings" and not secured:
+                self.log.append((h.name, "outside-a-session"))
+                return 3, b""
+            if op != 2:
+                self.log.append((h.name, f"op{op:02x}"))
+                return 6, b""
+            value = refacc.untlv(body).get(1, b"")
+            if value == b"\x0c\x00" and self.vq.get(h.name):
+                chunk = self.vq[h.name].pop(0)
+                return 0, refacc.tlv([(1, refacc.tlv([(12 if self.vq[h.name] else 13, chunk)]))])
+            self.vq[h.name] = []
+            reply = refacc.tlv(getattr(self, "on_" + h.name)(refacc.untlv(value)))
+            vfrag = self.case.get("vfrag") or 0
+            if vfrag and len(reply) > vfrag and h.name != "pairings":  # the library reassembles value fragments on pair-setup / pair-verify only
+                n = max(vfrag, -(-len(reply) // 40))
+                chunks = [reply[i:i + n] for i in range(0, len(reply), n)]
+                self.vq[h.name] = chunks[1:]
+                return 0, refacc.tlv([(1, refacc.tlv([(12, chunks[0])]))])
+            return 0, refacc.tlv([(1, reply)])
+        if h.name == "features":
+            self.log.append((h.name, f"op{op:02x}"))
+            return (0, refacc.tlv([(1, bytes([self.case.get("ff", 0)]))])) if op == 3 else (6, b"")
+        if not secured:
+            self.log.append((h.name, f"op{op:02x}-outside-a-session"))
+            return 3, b""
+        self.log.append((h.name, f"op{op:02x}"))
+        if op == 3:
+            return 0, refacc.tlv([(1, b"\x01")])
+        return (0, b"") if op in (2, 4, 5) else (6, b"")
+
+
+class _Radio:
+    """stands in for the bleak client: only what the library needs to move GATT reads and writes"""
+    address = "AA:BB:CC:DD:EE:FF"
+
+    def __init__(self, acc, mtu=512):
+        self.acc, self.mtu, self.is_connected, self.services = acc, mtu, True, []
+
+    async def get_characteristic(self, service_type, char_type, iid=None):
+        return self.acc.gatt(char_type, iid)
+
+    async def get_characteristic_iid(self, char):
+        return char.iid
+
+    def determine_fragment_size(self, overhead, handle=None):
+        return self.mtu - 3 - overhead
+
+    async def write_gatt_char(self, handle, data, response=None):
+        self.acc.gatt_write(handle, bytes(data))
+
+    async def read_gatt_char(self, handle):
+        return self.acc.gatt_read(handle)
+
+    async def disconnect(self):
+        self.is_connected = False
+        self.acc.drop_link()
+
+    async def clear_cache(self):
+        return None
+
+    async def start_notify(self, *a, **k):
+        return None
+
+    async def stop_notify(self, *a, **k):
+        return None
+
+
+_BLE_DB = {}
+
+
+def _ble_db():
+    """a small accessory database (information, pairing, lightbulb services) as an integration restores it from its cache"""
+    if not _BLE_DB:
+        from aiohomekit.model import Accessories, Accessory
+        from aiohomekit.model.characteristics import CharacteristicsTypes as CT
+        from aiohomekit.model.services import ServicesTypes as ST
+        a = Accessory(1)
+        info = a.add_service(ST.ACCESSORY_INFORMATION, iid=1)
+        info.add_char(CT.NAME, iid=2, value="acc")
+        info.add_char(CT.IDENTIFY, iid=3)
+        pair = a.add_service(ST.PAIRING, iid=10)
+        names = {}
+        for name, ct, iid in (("setup", CT.PAIR_SETUP, 11), ("verify", CT.PAIR_VERIFY, 12), ("features", CT.PAIRING_FEATURES, 13), ("pairings", CT.PAIRING_PAIRINGS, 14)):
+            pair.add_char(ct, iid=iid)
+            names[str(ct).upper()] = (name, iid)
+        bulb = a.add_service(ST.LIGHTBULB, iid=20)
+        bulb.add_char(CT.ON, iid=21)
+        names[str(CT.ON).upper()] = ("on", 21)
+        names[str(CT.NAME).upper()] = ("name", 2)
+        names[str(CT.IDENTIFY).upper()] = ("identify", 3)
+        accs = Accessories()
+        accs.add_accessory(a)
+        _BLE_DB.update(names=names, db=accs.serialize())
+    return _BLE_DB
+
+
+BLE_PUBLIC = {
+    "list_pairings": lambda p, k: p.list_pairings(),
+    "add_pairing": lambda p, k: p.add_pairing("other-ctl", k, "User"),
+    "add_pairing_admin": lambda p, k: p.add_pairing("other-ctl", k, "Admin"),
+    "remove_pairing": lambda p, k: p.remove_pairing("other-ctl"),
+    "remove_own_pairing": lambda p, k: p.remove_pairing(p.pairing_data["iOSPairingId"]),
+    "list_accessories_and_characteristics": lambda p, k: p.list_accessories_and_characteristics(),
+    "async_populate_accessories_state": lambda p, k: p.async_populate_accessories_state(force_update=True),
+    "get_characteristics": lambda p, k: p.get_characteristics([(1, 21)]),
+    "put_characteristics": lambda p, k: p.put_characteristics([(1, 21, True)]),
+    "identify": lambda p, k: p.identify(),
+}
+BLE_PAIRINGS_OPS = ("add_pairing", "add_pairing_admin", "remove_pairing", "remove_own_pairing")
+
+
+async def _guard(coro):
+    try:
+        r = await asyncio.wait_for(coro, OP_TIMEOUT)
+        return "ok " + (repr(r) if isinstance(r, (bool, type(None))) else type(r).__name__ + (f"[{len(r)}]" if isinstance(r, (list, dict)) else ""))
+    except E.HomeKitException as e:
+        return "err " + type(e).__name__
+    except asyncio.TimeoutError:
+        return "timeout"
+    except _Runaway:
+        return "runaway"
+    except Exception as e:  # noqa: BLE001
+        return "exc " + type(e).__name__
+
+
+async def _ble_cell(case):
+    """one BLE cell, a pure function of the case dict"""
+    import random as _r
+    from aiohomekit.characteristic_cache import CharacteristicCacheMemory
+    from aiohomekit.controller.ble.controller import BleController
+    rng = _r.Random(case.get("seed", 0))
+    rb = lambda n: bytes(rng.randrange(256) for _ in range(n))  # noqa: E731
+    db = _ble_db()
+    acc = _BleAcc(case, rb, db["names"])
+    radio = _Radio(acc, case.get("mtu", 512))
+    controller = BleController(CharacteristicCacheMemory())
+    op = case["op"]
+    obs = {"keys": None}
+    stub = mock.patch.object(P, "SrpClient", FakeSrp) if case.get("srp", "stub") == "stub" else mock.patch.object(P, "SrpClient", P.SrpClient)
+    if op in ("start_pairing", "finish_pairing"):
+        from aiohomekit.controller.ble.discovery import BleDiscovery
+        from aiohomekit.controller.ble.manufacturer_data import HomeKitAdvertisement
+        from aiohomekit.model.categories import Categories
+        from aiohomekit.model.status_flags import StatusFlags
+        desc = HomeKitAdvertisement(name="acc", id=acc.ident.acc_id.decode().lower(), status_flags=StatusFlags(1), config_num=1, category=Categories(5),
+                                    setup_hash=b"", address=radio.address, state_num=1)
+        disc = BleDiscovery(controller, None, desc, None)
+        disc.client = radio
+        with stub:
+            if op == "start_pairing":
+                out = await _guard(disc.async_start_pairing("alias"))
+            else:
+                # part 1 is genuine (the scripted step lies in part 2)
+                try:
+                    finish = await asyncio.wait_for(disc.async_start_pairing("alias"), OP_TIMEOUT)
+                except _Runaway:
+                    raise
+                except Exception as e:  # noqa: BLE001
+                    obs.update(out="scaffold " + type(e).__name__, scripted=0, requests=acc.requests, runaway=acc.runaway, after=[])
+                    return obs
+                out = await _guard(finish(PIN))
+        if "alias" in controller.pairings:
+            obs["keys"] = "controller.pairings holds the new pairing"
+        own = ("setup", "features")
+    else:
+        pd = dict(acc.ident.pairing_data(connection="BLE"), AccessoryAddress=radio.address)
+        pairing = BlePairing(controller, pd, client=radio)
+        pairing.restore_accessories_state(db["db"], 1, None, None)
+        own = ("pairings", "verify") if case.get("step") == "pairingsM2" else ("verify",)
+        if case.get("resume"):
+            # an earlier, genuine session on the same pairing; then the link drops (the radio reports it) and comes back
+            scripted, acc.step = acc.step, None
+            pre = await _guard(pairing._async_pair_verify())
+            acc.step = scripted
+            if pre != "ok None":
+                obs.update(out="scaffold " + pre, scripted=0, requests=acc.requests, runaway=acc.runaway, after=[])
+                return obs
+            acc.drop_link()
+            pairing._async_disconnected(radio)
+            acc.log.clear()
+        if op == "pair_verify":
+            out = await _guard(pairing._async_pair_verify())
+        else:
+            out = await _guard(BLE_PUBLIC[op](pairing, acc.ident.ios_ltpk.hex()))
+        if case.get("step") in ("verifyM2", "verifyM4") and pairing.is_connected:
+            obs["keys"] = "BlePairing.is_connected is True"
+    obs.update(out=out, scripted=len(acc.scripted_at), requests=acc.requests, runaway=acc.runaway, after=_after(acc, own), completed=list(acc.completed))
+    return obs
+
+
+def _cells(step, others, full):
+    """reply shapes for one (entry point, step): every error code with the expected / an absent State, every foreign State
+    without and with an error code; with and without the step's genuine other fields, over the item orders"""
+    exp = hx(STEP_STATE[step])
+    out = []
+    n = 0
+    if full == "light":
+        wrong = [hx(st) for st in STATES[1:] if hx(st) != exp]
+        return ([{"state": exp, "code": hx(c), "fields": False, "order": 0} for c in CODES[1:9]] + [{"state": None, "code": hx(c), "fields": False, "order": 0} for c in (b"\x07", b"\x02")]
+                + [{"state": w, "code": None, "fields": False, "order": 0} for w in (wrong[0], wrong[-1])])
+    for code in CODES[1:]:
+        for state in (exp, None):
+            for fields in ((False, True) if (others and full) else (False,)):
+                n += 1
+                out.append({"state": state, "code": hx(code), "fields": fields, "order": n % 5 if full else 0})
+    for st in STATES[1:]:
+        if hx(st) == exp:
+            continue
+        for code in ((None, CODES[1 + n % 7]) if full else (None,)):
+            for fields in ((False, True) if (others and full) else (False,)):
+                n += 1
+                out.append({"state": hx(st), "code": None if code is None else hx(code), "fields": fields, "order": n % 5 if full else 0})
+    return out
+
+
+def _run_cells(ctx, loop, cases, cell):
+    for case in cases:
+        try:
+            obs = loop.run_until_complete(cell(case))
+        except _Runaway:
+            obs = {"out": "runaway", "scripted": 1, "requests": REQUEST_LIMIT, "runaway": True, "after": [], "keys": None}
+        pend = [t for t in asyncio.all_tasks(loop) if not t.done()]
+        for t in pend:
+            t.cancel()
+        if pend:
+            loop.run_until_complete(asyncio.gather(*pend, return_exceptions=True))
+        ctx.evaluations += 1
+        ctx.nontrivial.add((case["stream"], case["op"], case.get("step"), case.get("state"), case.get("code"), case.get("fields"), case.get("order"),
+                            case.get("vfrag"), case.get("pdu_split"), case.get("resume"), case.get("honour_resume"), case.get("ff"), case.get("srp"), case.get("with_auth"), str(case.get("http"))))
+        ctx.dist[f"{case['stream']}:{case['op']}:{case.get('step') or 'genuine'}:{obs['out']}"] += 1
+        if case.get("step") is None and not obs["out"].startswith("ok"):
+            ctx.notes.append(f"{case['stream']} {case['op']}: the genuine control exchange ended with {obs['out']} (the property makes no claim; the error cells of this entry point may not reach their step)")
+        for sig, text in _judge(case, obs):
+            ctx.violation(f"{case['stream']}/{case['op']}/{case.get('step')}/{sig}", text, case)
+
+
+def ble_transport_grid(ctx: Ctx, rng):
+    from harness import simnet
+    loop = simnet.VLoop()
+    asyncio.set_event_loop(loop)
+    cases = []
+    shapes = [{"vfrag": 0, "pdu_split": 0}, {"vfrag": 0, "pdu_split": 3}, {"vfrag": 2, "pdu_split": 0}, {"vfrag": 3, "pdu_split": 5, "mtu": 23}]
+
+    def add(op, level, step, others, full, **kw):
+        for i, cell in enumerate(_cells(step, others, full)):
+            cases.append(dict({"stream": "ble", "op": op, "level": level, "step": step, "seed": rng.randrange(1 << 30)}, **cell, **shapes[(i + len(cases)) % len(shapes)], **kw))
+    # the procedures' own drivers: documented class demanded
+    for step, others in (("verifyM2", True), ("verifyM4", False)):
+        add("pair_verify", "step", step, others, True)
+        # a later session of the same pairing (resume requested): the accessory resumes (M2 only) or falls back to a full exchange
+        if step == "verifyM2":
+            add("pair_verify", "step", step, others, True, resume=True)
+        add("pair_verify", "step", step, others, step == "verifyM4", resume=True, honour_resume=False)
+    for ff in (0, 1, 2):
+        add("start_pairing", "step", "setupM2", True, ff != 2, ff=ff)
+    add("finish_pairing", "step", "setupM4", True, True)
+    add("finish_pairing", "step", "setupM6", True, True)
+    # public operations that run pair-verify first / add and remove pairing inside a genuine session: a library error demanded
+    for op in BLE_PUBLIC:
+        for step in ("verifyM2", "verifyM4"):
+            add(op, "op", step, True, False)
+    for op in BLE_PAIRINGS_OPS:
+        add(op, "op", "pairingsM2", False, True)
+    # real SRP on a sample of the pair-setup cells, and the genuine control exchanges
+    real = [dict(c, srp="real") for c in cases if c["op"] in ("start_pairing", "finish_pairing")]
+    rng.shuffle(real)
+    cases += real[:ctx.budget(4, 80)]
+    for op in ["pair_verify", "start_pairing", "finish_pairing"] + list(BLE_PUBLIC):
+        for shape in shapes[:ctx.budget(2, 4)]:
+            cases.append(dict({"stream": "ble", "op": op, "level": "step", "step": None, "seed": rng.randrange(1 << 30)}, **shape))
+    cases.append({"stream": "ble", "op": "pair_verify", "level": "step", "step": None, "resume": True, "seed": rng.randrange(1 << 30)})
+    cases.append({"stream": "ble", "op": "finish_pairing", "level": "step", "step": None, "srp": "real", "seed": rng.randrange(1 << 30)})
+    _run_cells(ctx, loop, cases, _ble_cell)
+    asyncio.set_event_loop(None)
+    loop.close()
+    ctx.sample(cases[3])
+    ctx.notes.append(f"BLE transport: {len(cases)} cells (entry point x step x reply shape x PDU / value fragmentation) through the real ble_request, PDU codec, _pairing_char_write, "
+                     "drive_pairing_state_machine, BlePairing and BleDiscovery against an independent HAP-BLE accessory; the accessory repeats the scripted reply on every attempt")
+
+
+
+# -------------------------------------------------------------------------------------------------------------- CoAP
+class _CoapAcc(_Peer):
+    """HAP over CoAP: /1 pair-setup and /2 pair-verify carry bare TLV8; everything else needs a session this accessory does
+    not serve (4.04, as an accessory that has no such session answers)"""
+
+    def respond(self, msg):
+        from types import SimpleNamespace
+        from aiocoap.numbers.codes import Code
+        self.count()
+        path = "/".join(msg.opt.uri_path)
+        if path in ("1", "2"):
+            items = (self.on_setup if path == "1" else self.on_verify)(refacc.untlv(bytes(msg.payload)))
+            return SimpleNamespace(payload=refacc.tlv(items), code=Code.CHANGED)
+        self.log.append(("secured", "request"))
+        return SimpleNamespace(payload=b"", code=Code.NOT_FOUND)
+
+
+class _CoapContext:
+    """stands in for aiocoap.Context"""
+
+    def __init__(self, acc):
+        self.acc = acc
+
+    def request(self, msg):
+        from types import SimpleNamespace
+        fut = asyncio.get_running_loop().create_future()
+        fut.set_result(self.acc.respond(msg))
+        return SimpleNamespace(response=fut)
+
+    async def shutdown(self):
+        return None
+
+
+COAP_PUBLIC = {
+    "pairing.list_pairings": lambda p: p.list_pairings(),
+    "pairing.remove_pairing": lambda p: p.remove_pairing("other-ctl"),
+    "pairing.remove_own_pairing": lambda p: p.remove_pairing(p.pairing_data["iOSPairingId"]),
+    "pairing.list_accessories_and_characteristics": lambda p: p.list_accessories_and_characteristics(),
+    "pairing.async_populate_accessories_state": lambda p: p.async_populate_accessories_state(force_update=True),
+    "pairing.get_characteristics": lambda p: p.get_characteristics([(1, 21)]),
+    "pairing.put_characteristics": lambda p: p.put_characteristics([(1, 21, True)]),
+    "pairing.subscribe": lambda p: p.subscribe([(1, 21)]),
+}
+
+
+async def _coap_cell(case):
+    """one CoAP cell, a pure function of the case dict"""
+    import random as _r
+    from types import SimpleNamespace
+    import aiohomekit.controller.coap.connection as coapc
+    from aiohomekit.characteristic_cache import CharacteristicCacheMemory
+    rng = _r.Random(case.get("seed", 0))
+    rb = lambda n: bytes(rng.randrange(256) for _ in range(n))  # noqa: E731
+    acc = _CoapAcc(case, rb)
+
+    class FakeContext:
+        @staticmethod
+        async def create_client_context(*a, **k):
+            return _CoapContext(acc)
+
+        @staticmethod
+        async def create_server_context(*a, **k):
+            return _CoapContext(acc)
+    op = case["op"]
+    obs = {"keys": None}
+    stub = mock.patch.object(P, "SrpClient", FakeSrp) if case.get("srp", "stub") == "stub" else mock.patch.object(P, "SrpClient", P.SrpClient)
+    pd = dict(acc.ident.pairing_data(hosts=("fd00::1",), port=5683, connection="CoAP"))
+    controller = SimpleNamespace(pairings={}, _char_cache=CharacteristicCacheMemory())
+    with mock.patch.object(coapc, "Context", FakeContext), stub:
+        if op.startswith("discovery."):
+            from aiohomekit.controller.coap.discovery import CoAPDiscovery
+            from aiohomekit.model.categories import Categories
+            from aiohomekit.model.feature_flags import FeatureFlags
+            from aiohomekit.model.status_flags import StatusFlags
+            from aiohomekit.zeroconf import HomeKitService
+            desc = HomeKitService(name="acc", id=acc.ident.acc_id.decode().lower(), model="m", feature_flags=FeatureFlags(case.get("ff", 0)), status_flags=StatusFlags(1),
+                                  config_num=1, state_num=1, category=Categories(5), protocol_version="1.1", type="_hap._udp.local.", address="fd00::1",
+                                  addresses=["fd00::1"], port=5683)
+            disc = CoAPDiscovery(controller, desc)
+            if op == "discovery.start_pairing":
+                out = await _guard(disc.async_start_pairing("alias"))
+            else:
+                try:
+                    finish = await asyncio.wait_for(disc.async_start_pairing("alias"), OP_TIMEOUT)
+                except _Runaway:
+                    raise
+                except Exception as e:  # noqa: BLE001
+                    obs.update(out="scaffold " + type(e).__name__, scripted=0, requests=acc.requests, runaway=acc.runaway, after=[])
+                    return obs
+                out = await _guard(finish(PIN))
+            if "alias" in controller.pairings:
+                obs["keys"] = "controller.pairings holds the new pairing"
+        elif op.startswith("pairing."):
+            from aiohomekit.controller.coap.pairing import CoAPPairing
+            pairing = CoAPPairing(controller, pd)
+            pairing.restore_accessories_state(_ble_db()["db"], 1, None, None)
+            out = await _guard(COAP_PUBLIC[op](pairing))
+            if pairing.is_connected:
+                obs["keys"] = "CoAPPairing.is_connected is True"
+        else:
+            conn = coapc.CoAPHomeKitConnection(None, "fd00::1", 5683)
+            if op == "do_pair_setup":
+                out = await _guard(conn.do_pair_setup(bool(case.get("with_auth"))))
+            elif op == "do_pair_setup_finish":
+                try:
+                    salt, srp_b = await asyncio.wait_for(conn.do_pair_setup(bool(case.get("with_auth"))), OP_TIMEOUT)
+                except _Runaway:
+                    raise
+                except Exception as e:  # noqa: BLE001
+                    obs.update(out="scaffold " + type(e).__name__, scripted=0, requests=acc.requests, runaway=acc.runaway, after=[])
+                    return obs
+                out = await _guard(conn.do_pair_setup_finish(PIN, salt, srp_b))
+            elif op == "do_pair_verify":
+                out = await _guard(conn.do_pair_verify(pd))
+            else:
+                out = await _guard(conn.connect(pd))
+            if conn.is_connected:
+                obs["keys"] = "CoAPHomeKitConnection.is_connected is True (an encryption context is installed)"
+    own = ("setup",) if (case.get("step") or "").startswith("setup") else ("verify",)
+    obs.update(out=out, scripted=len(acc.scripted_at), requests=acc.requests, runaway=acc.runaway, after=_after(acc, own), completed=list(acc.completed))
+    return obs
+
+
+def coap_transport_grid(ctx: Ctx, rng):
+    from harness import simnet
+    loop = simnet.VLoop()
+    asyncio.set_event_loop(loop)
+    cases = []
+
+    def add(op, level, step, others, full, **kw):
+        for cell in _cells(step, others, full):
+            cases.append(dict({"stream": "coap", "op": op, "level": level, "step": step, "seed": rng.randrange(1 << 30)}, **cell, **kw))
+    for wa in (False, True):
+        add("do_pair_setup", "step", "setupM2", True, True, with_auth=wa)
+    add("do_pair_setup_finish", "step", "setupM4", True, True)
+    add("do_pair_setup_finish", "step", "setupM6", True, True)
+    for ff in (0, 1):
+        add("discovery.start_pairing", "step", "setupM2", True, False, ff=ff)
+    add("discovery.finish_pairing", "step", "setupM4", True, False)
+    add("discovery.finish_pairing", "step", "setupM6", True, False)
+    for step, others in (("verifyM2", True), ("verifyM4", False)):
+        add("do_pair_verify", "step", step, others, True)
+        # connect() and the pairing's operations report any failure to connect as AccessoryDisconnectedError: a library error demanded
+        add("connect", "op", step, others, False)
+        for op in COAP_PUBLIC:
+            add(op, "op", step, others, False)
+    real = [dict(c, srp="real") for c in cases if c["step"].startswith("setup")]
+    rng.shuffle(real)
+    cases += real[:ctx.budget(3, 60)]
+    for op in ("do_pair_setup", "do_pair_setup_finish", "do_pair_verify", "discovery.start_pairing", "discovery.finish_pairing"):
+        cases.append({"stream": "coap", "op": op, "level": "step", "step": None, "seed": rng.randrange(1 << 30)})
+    cases.append({"stream": "coap", "op": "do_pair_setup_finish", "level": "step", "step": None, "srp": "real", "seed": rng.randrange(1 << 30)})
+    _run_cells(ctx, loop, cases, _coap_cell)
+    asyncio.set_event_loop(None)
+    loop.close()
+    ctx.sample(cases[5])
+    ctx.notes.append(f"CoAP transport: {len(cases)} cells (entry point x step x reply shape) through the real CoAPHomeKitConnection.do_pair_setup / do_pair_setup_finish / do_pair_verify / "
+                     "connect, CoAPDiscovery and CoAPPairing with aiocoap's Context replaced by an independent accessory that repeats the scripted reply on every attempt")
+
+
+
+# ---------------------------------------------------------------------------------------------------------------- IP
+class _IpAcc(_Peer):
+    """HAP over IP on harness/simnet: HTTP/1.1 requests on /pair-setup, /pair-verify, /pairings, /accessories, /characteristics;
+    after a completed pair-verify the connection speaks the encrypted framing; a request that needs a session on a connection
+    without one is answered 470.  The scripted reply travels with the HTTP status / Content-Type of the case."""
+
+    def __init__(self, case, rb, net, loop):
+        super().__init__(case, rb)
+        self.loop, self.conns = loop, {}
+        net.on_connect = self.on_connect
+        net.handler = self.on_write
+
+    def on_connect(self, t):
+        self.conns[t] = {"buf": b"", "ebuf": b"", "keys": None, "r": 0, "w": 0}
+
+    def on_write(self, t, data):
+        from cryptography.exceptions import InvalidTag
+        c = self.conns[t]
+        if c["keys"]:
+            c["ebuf"] += data
+            while len(c["ebuf"]) >= 2:
+                n = struct.unpack("<H", c["ebuf"][:2])[0]
+                if len(c["ebuf"]) < 2 + n + 16:
+                    break
+                aad, blk, c["ebuf"] = c["ebuf"][:2], c["ebuf"][2:2 + n + 16], c["ebuf"][2 + n + 16:]
+                try:
+                    c["buf"] += ChaCha20Poly1305(c["keys"][0]).decrypt(struct.pack("<LQ", 0, c["r"]), blk, aad)
+                except InvalidTag:
+                    self.log.append(("secured", "not-encrypted-for-this-session"))
+                    return t.peer_close()
+                c["r"] += 1
+        else:
+            c["buf"] += data
+        while True:
+            i = c["buf"].find(b"\r\n\r\n")
+            if i < 0:
+                return
+            head = c["buf"][:i].split(b"\r\n")
+            cl = 0
+            for h in head[1:]:
+                if h.lower().startswith(b"content-length:"):
+                    cl = int(h.split(b":")[1])
+            if len(c["buf"]) < i + 4 + cl:
+                return
+            body, c["buf"] = c["buf"][i + 4:i + 4 + cl], c["buf"][i + 4 + cl:]
+            method, target = head[0].split(b" ")[:2]
+            self.loop.call_soon(self.handle, t, method.decode(), target.decode(), body)
+
+    def send(self, t, body, ctype="application/pairing+tlv8", status=(200, "OK")):
+        c = self.conns[t]
+        if status[0] == 204:
+            data = b"HTTP/1.1 204 No Content\r\n\r\n"
+        else:
+            data = (f"HTTP/1.1 {status[0]} {status[1]}\r\n" + (f"Content-Type: {ctype}\r\n" if ctype else "") + f"Content-Length: {len(body)}\r\n\r\n").encode() + body
+        if c["keys"]:
+            out = b""
+            for i in range(0, len(data), 1024):
+                blk = data[i:i + 1024]
+                ln = struct.pack("<H", len(blk))
+                out += ln + ChaCha20Poly1305(c["keys"][1]).encrypt(struct.pack("<LQ", 0, c["w"]), blk, ln)
+                c["w"] += 1
+            data = out
+        t.feed(data)
+
+    def handle(self, t, method, target, body):
+        import json
+        if t.closing or t.closed:
+            return
+        self.count()
+        c = self.conns[t]
+        if target in ("/pair-setup", "/pair-verify") or (target == "/pairings" and c["keys"]):
+            before, done = len(self.scripted_at), len(self.completed)
+            items = {"/pair-setup": self.on_setup, "/pair-verify": self.on_verify, "/pairings": self.on_pairings}[target](refacc.untlv(body))
+            if len(self.scripted_at) > before and self.case.get("http"):
+                st, ct = self.case["http"]
+                self.send(t, refacc.tlv(items), ct, (st, "X"))
+            else:
+                self.send(t, refacc.tlv(items))
+            if target == "/pair-verify" and "verify" in self.completed[done:]:
+                c.update(keys=self.session[:2], r=0, w=0)
+            return
+        if not c["keys"]:
+            self.log.append((target.split("?")[0], "outside-a-session"))
+            return self.send(t, b"", None, (470, "Connection Authorization Required"))
+        self.log.append((target.split("?")[0], method))
+        if target.startswith("/accessories"):
+            return self.send(t, json.dumps({"accessories": _ble_db()["db"]}).encode(), "application/hap+json")
+        if target.startswith("/characteristics") and method == "GET":
+            return self.send(t, json.dumps({"characteristics": [{"aid": 1, "iid": 21, "value": True}]}).encode(), "application/hap+json")
+        self.send(t, b"", None, (204, "No Content"))
+
+
+IP_PUBLIC = {
+    "pairing.list_pairings": lambda p, k: p.list_pairings(),
+    "pairing.add_pairing": lambda p, k: p.add_pairing("other-ctl", k, "User"),
+    "pairing.add_pairing_admin": lambda p, k: p.add_pairing("other-ctl", k, "Admin"),
+    "pairing.remove_pairing": lambda p, k: p.remove_pairing("other-ctl"),
+    "pairing.remove_own_pairing": lambda p, k: p.remove_pairing(p.pairing_data["iOSPairingId"]),
+    "pairing.list_accessories_and_characteristics": lambda p, k: p.list_accessories_and_characteristics(),
+    "pairing.async_populate_accessories_state": lambda p, k: p.async_populate_accessories_state(force_update=True),
+    "pairing.get_characteristics": lambda p, k: p.get_characteristics([(1, 21)]),
+    "pairing.put_characteristics": lambda p, k: p.put_characteristics([(1, 21, True)]),
+    "pairing.identify": lambda p, k: p.identify(),
+}
+IP_PAIRINGS_OPS = ("pairing.add_pairing", "pairing.add_pairing_admin", "pairing.remove_pairing", "pairing.remove_own_pairing")
+
+
+async def _ip_cell(case):
+    """one IP cell, a pure function of the case dict"""
+    import random as _r
+    from types import SimpleNamespace
+    from harness import simnet
+    from aiohomekit.characteristic_cache import CharacteristicCacheMemory
+    from aiohomekit.controller.ip.connection import SecureHomeKitConnection
+    rng = _r.Random(case.get("seed", 0))
+    rb = lambda n: bytes(rng.randrange(256) for _ in range(n))  # noqa: E731
+    loop = asyncio.get_running_loop()
+    net = simnet.Net(loop)
+    acc = _IpAcc(case, rb, net, loop)
+    op = case["op"]
+    obs = {"keys": None}
+    stub = mock.patch.object(P, "SrpClient", FakeSrp) if case.get("srp", "stub") == "stub" else mock.patch.object(P, "SrpClient", P.SrpClient)
+    pd = acc.ident.pairing_data()
+    controller = SimpleNamespace(pairings={}, _char_cache=CharacteristicCacheMemory())
+    closer = None
+    with net.patched(), stub:
+        try:
+            if op.startswith("discovery."):
+                from aiohomekit.controller.ip.discovery import IpDiscovery
+                from aiohomekit.model.categories import Categories
+                from aiohomekit.model.feature_flags import FeatureFlags
+                from aiohomekit.model.status_flags import StatusFlags
+                from aiohomekit.zeroconf import HomeKitService
+                desc = HomeKitService(name="acc", id=acc.ident.acc_id.decode().lower(), model="m", feature_flags=FeatureFlags(case.get("ff", 0)), status_flags=StatusFlags(1),
+                                      config_num=1, state_num=1, category=Categories(5), protocol_version="1.1", type="_hap._tcp.local.", address="10.0.0.1",
+                                      addresses=["10.0.0.1"], port=80)
+                disc = IpDiscovery(controller, desc)
+                closer = disc.close
+                if op == "discovery.start_pairing":
+                    out = await _guard(disc.async_start_pairing("alias"))
+                else:
+                    try:
+                        finish = await asyncio.wait_for(disc.async_start_pairing("alias"), OP_TIMEOUT)
+                    except Exception as e:  # noqa: BLE001
+                        obs.update(out="scaffold " + type(e).__name__, scripted=0, requests=acc.requests, runaway=acc.runaway, after=[])
+                        return obs
+                    out = await _guard(finish(PIN))
+                if "alias" in controller.pairings:
+                    obs["keys"] = "controller.pairings holds the new pairing"
+                    closer = controller.pairings["alias"].close
+            elif op == "connect_once":
+                # the IP driver of pair-verify, as the connector task runs it
+                conn = SecureHomeKitConnection(None, pd)
+                closer = conn.close
+                out = await _guard(conn._connect_once())
+                if conn.is_connected or conn.is_secure:
+                    obs["keys"] = "SecureHomeKitConnection.is_secure is True"
+            else:
+                from aiohomekit.controller.ip.pairing import IpPairing
+                pairing = IpPairing(controller, pd)
+                closer = pairing.close
+                pairing.restore_accessories_state(_ble_db()["db"], 1, None, None)
+                out = await _guard(IP_PUBLIC[op](pairing, acc.ident.ios_ltpk.hex()))
+                if case.get("step") in ("verifyM2", "verifyM4") and pairing.is_connected:
+                    obs["keys"] = "IpPairing.is_connected is True"
+        finally:
+            net.connect_outcomes = ["refused"] * 10000
+            if closer is not None:
+                try:
+                    await closer()
+                except Exception:  # noqa: BLE001
+                    pass
+    step = case.get("step") or ""
+    own = ("setup",) if step.startswith("setup") else (("pairings", "verify") if step == "pairingsM2" else ("verify",))
+    obs.update(out=out, scripted=len(acc.scripted_at), requests=acc.requests, runaway=acc.runaway, after=_after(acc, own), completed=list(acc.completed))
+    return obs
+
+
+def ip_transport_grid(ctx: Ctx, rng):
+    from harness import simnet
+    loop = simnet.VLoop()
+    asyncio.set_event_loop(loop)
+    cases = []
+    https = [None, [400, "application/pairing+tlv8"], [429, None], [200, "application/hap+json"], [470, "Application/Pairing+TLV8; charset=utf-8"]]
+
+    def add(op, level, step, others, full, **kw):
+        for i, cell in enumerate(_cells(step, others, full)):
+            cases.append(dict({"stream": "ip", "op": op, "level": level, "step": step, "seed": rng.randrange(1 << 30), "http": https[(i + len(cases)) % len(https)]}, **cell, **kw))
+    for ff in (0, 1):
+        add("discovery.start_pairing", "step", "setupM2", True, ff == 0, ff=ff)
+    add("discovery.finish_pairing", "step", "setupM4", True, True)
+    add("discovery.finish_pairing", "step", "setupM6", True, True)
+    for step, others in (("verifyM2", True), ("verifyM4", False)):
+        add("connect_once", "step", step, others, True)
+        # the pairing's operations wait 10 s for the (endlessly retrying) connector and report AccessoryDisconnectedError
+        for op in IP_PUBLIC:
+            add(op, "op", step, others, "light")
+    for op in IP_PAIRINGS_OPS:
+        add(op, "add" if "add" in op else "op", "pairingsM2", False, True)
+    real = [dict(c, srp="real") for c in cases if c["step"].startswith("setup")]
+    rng.shuffle(real)
+    cases += real[:ctx.budget(3, 60)]
+    for op in ["discovery.start_pairing", "discovery.finish_pairing", "connect_once"] + list(IP_PUBLIC):
+        cases.append({"stream": "ip", "op": op, "level": "step", "step": None, "seed": rng.randrange(1 << 30)})
+    _run_cells(ctx, loop, cases, _ip_cell)
+    asyncio.set_event_loop(None)
+    loop.close()
+    ctx.sample(cases[7])
+    ctx.notes.append(f"IP transport: {len(cases)} cells (entry point x step x reply shape x HTTP status / Content-Type of the error reply) through the real IpDiscovery, "
+                     "SecureHomeKitConnection._connect_once, the connector task and IpPairing's operations over harness/simnet against an independent accessory that repeats the scripted reply on every attempt")
+
+
 def replay(ctx, driver, c):
+    if c.get("stream") in ("ble", "coap", "ip"):
+        from harness import simnet
+        loop = simnet.VLoop()
+        asyncio.set_event_loop(loop)
+        try:
+            try:
+                obs = loop.run_until_complete({"ble": _ble_cell, "coap": _coap_cell, "ip": _ip_cell}[c["stream"]](c))
+            except _Runaway:
+                obs = {"out": "runaway", "scripted": 1, "requests": REQUEST_LIMIT, "runaway": True, "after": [], "keys": None}
+            pend = [t for t in asyncio.all_tasks(loop) if not t.done()]
+            for t in pend:
+                t.cancel()
+            if pend:
+                loop.run_until_complete(asyncio.gather(*pend, return_exceptions=True))
+        finally:
+            asyncio.set_event_loop(None)
+            loop.close()
+        bad = _judge(c, obs)
+        return "; ".join(text for _, text in bad) or None
     rng = ctx.rng
     sc = Scaffold(rng)
     items = [(k, bytes.fromhex(v) if v != "-" else b"") for k, v in c["items"]]
